@@ -1250,8 +1250,13 @@ class Terms:
                 return ("callv", ft, args, kws)
             return ("callv", self._t(fn, d1, cenv), args, kws)
         if isinstance(e, ast.Subscript):
-            return ("sub", self._t(e.value, d1, cenv),
-                    self._t(e.slice, d1, cenv))
+            bt = self._t(e.value, d1, cenv)
+            it_ = self._t(e.slice, d1, cenv)
+            if it_ == ("idx", bt):
+                # S[i] with i the position of the loop in S (i from
+                # enumerate(S) or range(len(S))): the loop's element of S
+                return ("elem", bt)
+            return ("sub", bt, it_)
         if isinstance(e, ast.Slice):
             return ("slice", self._t(e.lower, d1, cenv),
                     self._t(e.upper, d1, cenv), self._t(e.step, d1, cenv))
@@ -1486,6 +1491,11 @@ def _item(t, i):
 def _elem_term(it, path=()):
     """Element of iterable term ``it`` (loop variable), then components."""
     path = list(path)
+    # for i in range(len(S)): i is the position of the loop in S
+    if not path and it[0] == "call" and it[1] == "builtins.range" and \
+            len(it[2]) == 1 and not it[3] and it[2][0][0] == "call" and \
+            it[2][0][1] == "builtins.len" and len(it[2][0][2]) == 1:
+        return ("idx", it[2][0][2][0])
     # enumerate(x): (idx, elem)
     if it[0] == "call" and it[1] == "builtins.enumerate" and it[2]:
         if path:
